@@ -63,10 +63,13 @@ Definition side (n : nat) (c : call) (st : store) : Prop :=
                ((exists j, (j < n)%nat /\ g_code g = mint j KCode) /\ forall s, In s (st_asess st) -> a_code s <> g_code g)
   | _ => True
   end.
+(* ... along every continuation the storage can force: the call takes effect, or it fails and has
+   no effect, or (a read) it reports not-found *)
 Fixpoint safe (n : nat) {A} (p : prog A) (st : store) : Prop :=
   match p with
   | Ret _ => True
-  | Do c k => side n c st /\ safe n (k (snd (exec c st))) (fst (exec c st))
+  | Do c k => side n c st /\ safe n (k (snd (exec c st))) (fst (exec c st)) /\
+              safe n (k RFail) st /\ (is_read c = true -> safe n (k RNotFound) st)
   | Touch _ p' => safe n p' st
   end.
 
@@ -103,11 +106,26 @@ Proof.
   - (* GDelByCode *) destruct (find _ _); [|split; assumption]. apply SUBG. intros x Hx. unfold del_gsess in Hx. apply filter_In in Hx. tauto.
 Qed.
 
-Lemma prefix_cinv {A} n (p : prog A) : forall k st, safe n p st -> cinv n st -> cinv n (fst (run_prefix k p st)).
+Lemma fault_prefix_cinv {A} n plan (p : prog A) : forall i k st, safe n p st -> cinv n st ->
+  cinv n (fst (fst (run_fault_prefix_log plan i k p st))).
 Proof.
-  induction p as [a|c kont IH|o p IH]; cbn; intros k st S C; auto.
-  destruct k; [exact C|]. destruct S as [Sc Sk]. pose proof (exec_cinv n c st Sc C) as C'.
-  destruct (exec c st) as [st' r]. cbn in *. apply IH; auto.
+  induction p as [a|c kont IH|o p IH]; cbn; intros i k st S C; auto.
+  destruct k; [exact C|]. destruct S as (Sc & Sk & Sf & Sm). pose proof (exec_cinv n c st Sc C) as C'.
+  assert (K : forall st' r, safe n (kont r) st' -> cinv n st' ->
+              cinv n (fst (fst (let '(st'', a, l) := run_fault_prefix_log plan (S i) k (kont r) st' in (st'', a, call_kind c :: l))))).
+  { intros st' r S' C0. specialize (IH r (S i) k st' S' C0).
+    destruct (run_fault_prefix_log plan (S i) k (kont r) st') as [[st'' a] l]. exact IH. }
+  destruct (plan i); cbn.
+  - destruct (exec c st) as [st' r]. cbn in *. apply K; auto.
+  - apply K; auto.
+  - destruct (is_read c) eqn:R; cbn.
+    + apply K; auto.
+    + destruct (exec c st) as [st' r]. cbn in *. apply K; auto.
+Qed.
+Lemma prefix_cinv {A} n (p : prog A) k st : safe n p st -> cinv n st -> cinv n (fst (run_prefix k p st)).
+Proof.
+  intros S C. pose proof (fault_prefix_cinv n (fun _ => FNone) p 0%nat k st S C) as H.
+  rewrite run_fault_prefix_none in H by reflexivity. rewrite run_prefix_log_eq. exact H.
 Qed.
 Lemma cinv_mono n st : cinv n st -> cinv (S n) st.
 Proof. intros [G N]. split; auto. intros g Hg. destruct (G g Hg) as [Z|[j [Hj E]]]; [left; auto|right; exists j; split; [lia|auto]]. Qed.
@@ -129,17 +147,68 @@ Proof.
   eapply rinv_fresh; eauto.
 Qed.
 
+(* ... and by every prefix of every faulty run: a call that fails leaves the store alone and only
+   adds to what the request has seen *)
+Lemma iinv_more_wa {X F : Type} (xid : X -> id) (get : F -> X -> id) old now_ n l0 sa wa l i :
+  iinv X F xid get old now_ n l0 sa wa l -> iinv X F xid get old now_ n l0 sa (i :: wa) l.
+Proof.
+  intros [P1 P2 A B C D E G H]. constructor; auto.
+  - intros x f Hx Hn. right. eauto.
+  - intros x f Hx Hn. right. eauto.
+Qed.
+Lemma fail_rinv n st0 k c r st : (r = RFail \/ (is_read c = true /\ r = RNotFound)) ->
+  rinv n st0 k st -> rinv n st0 (see c r k) st.
+Proof.
+  intros Hr [IA IG]. destruct Hr as [->|[Rc ->]].
+  - destruct c; cbn; try (split; assumption); split; auto; apply iinv_more_wa; auto.
+  - destruct c; cbn in *; try discriminate; split; assumption.
+Qed.
+Lemma run_fault_prefix_rinv {A} n st0 plan (p : prog A) : forall i j k st,
+  disciplined n k p -> rinv n st0 k st -> exists k', rinv n st0 k' (fst (fst (run_fault_prefix_log plan i j p st))).
+Proof.
+  induction p as [a|c kont IH|o p IH]; cbn; intros i j k st D R.
+  - exists k; auto.
+  - destruct j; [exists k; auto|]. destruct D as [G D].
+    assert (K : forall st' r, rinv n st0 (see c r k) st' ->
+              exists k', rinv n st0 k' (fst (fst (let '(st'', a, l) := run_fault_prefix_log plan (S i) j (kont r) st' in (st'', a, call_kind c :: l))))).
+    { intros st' r R'. destruct (IH r (S i) j (see c r k) st' (D r) R') as [k' Hk'].
+      exists k'. destruct (run_fault_prefix_log plan (S i) j (kont r) st') as [[st'' a] l]. exact Hk'. }
+    pose proof (exec_rinv n st0 k c st G R) as R'.
+    destruct (plan i); cbn.
+    + destruct (exec c st) as [st' r]. cbn in R'. apply K, R'.
+    + apply K. apply fail_rinv; auto.
+    + destruct (is_read c) eqn:Rc; cbn.
+      * apply K. apply fail_rinv; auto.
+      * destruct (exec c st) as [st' r]. cbn in R'. apply K, R'.
+  - eauto.
+Qed.
+Lemma fault_prefix_fresh {A} n plan (p : prog A) j st :
+  disciplined n seen0 p -> fresh n st -> fresh (S n) (fst (fst (run_fault_prefix_log plan 0 j p st))).
+Proof.
+  intros D F. destruct (run_fault_prefix_rinv n st plan p 0%nat j seen0 st D (fresh_rinv0 _ _ F)) as [k' R].
+  eapply rinv_fresh; eauto.
+Qed.
+
 (* composition *)
-Lemma safe_bind {A B} n (p : prog A) (f : A -> prog B) : forall st,
-  safe n p st -> safe n (f (snd (run_seq p st))) (fst (run_seq p st)) -> safe n (bind p f) st.
+Lemma safe_bind_any {A B} n (p : prog A) (f : A -> prog B) : forall st,
+  safe n p st -> (forall a st', safe n (f a) st') -> safe n (bind p f) st.
 Proof.
   induction p as [a|c k IH|o p IH]; cbn; intros st Hp Hf; auto.
-  destruct Hp as [Hc Hk]. split; auto. destruct (exec c st) as [st' r]. cbn in *. apply IH; auto.
+  destruct Hp as (Hc & Hk & Hfail & Hm). repeat split; auto.
+Qed.
+Lemma safe_bind_ro {A B} n (p : prog A) (f : A -> prog B) : readonly p -> forall st,
+  (forall a, safe n (f a) st) -> safe n (bind p f) st.
+Proof.
+  induction p as [a|c k IH|o p IH]; cbn; intros Hr st Hf; auto.
+  destruct Hr as [Rc Hr]. pose proof (exec_read c st Rc) as E.
+  repeat split; auto.
+  - destruct c; cbn in *; try discriminate; exact I.
+  - rewrite E. apply IH; auto.
 Qed.
 Lemma nosave_safe {A} n (p : prog A) : nosave p -> forall st, safe n p st.
 Proof.
   induction p as [a|c k IH|o p IH]; cbn; intros NS st; auto.
-  destruct NS as [Rc NS]. split; [destruct c; cbn in *; tauto|]. apply IH, NS.
+  destruct NS as [Rc NS]. repeat split; auto. destruct c; cbn in *; tauto.
 Qed.
 
 (* ================================================================================== *)
@@ -158,19 +227,23 @@ Ltac sbreak :=
       | context [match ?x with _ => _ end] => c14_innermost x
       end
   end.
-Ltac sgo := repeat (cbn; unfold reply_a, reply_g; try sbreak).
+Ltac sgo :=
+  repeat (cbn; unfold reply_a, reply_g;
+          first [ match goal with
+                  | |- false = true -> _ => let X := fresh in intros X; discriminate X
+                  | |- true = true -> _ => intros _
+                  end
+                | sbreak | split ]).
 
 Lemma safe_authenticated {B} n w cr (f : option client -> prog B) st :
   (forall oc, safe n (f oc) st) -> safe n (bind (authenticated w cr) f) st.
 Proof.
-  intros H. apply safe_bind; [apply nosave_safe, authenticated_nosave|].
-  rewrite (readonly_run _ st (authenticated_readonly w cr)). apply H.
+  intros H. apply safe_bind_ro; [apply authenticated_readonly|exact H].
 Qed.
 Lemma safe_get_client {B} n w i (f : option client -> prog B) st :
   (forall oc, safe n (f oc) st) -> safe n (bind (get_client w i) f) st.
 Proof.
-  intros H. apply safe_bind; [apply nosave_safe, get_client_nosave|].
-  rewrite (readonly_run _ st (get_client_readonly w i)). apply H.
+  intros H. apply safe_bind_ro; [apply get_client_readonly|exact H].
 Qed.
 
 Lemma g_code_with_refresh n now cfg c g : g_code (with_refresh n now cfg c g) = g_code g.
@@ -256,29 +329,38 @@ Proof.
   apply authenticate_safe. destruct HS as [Z|[s0 (H0 & H1 & H2)]]; [left; exact Z|right; exists s0; auto].
 Qed.
 
+Lemma safe_lookup {A} n c (k : reply -> prog A) st : is_read c = true ->
+  safe n (k (snd (exec c st))) st -> safe n (k RFail) st -> safe n (k RNotFound) st -> safe n (Do c k) st.
+Proof.
+  intros Rc H1 H2 H3. cbn. rewrite (exec_read c st Rc). repeat split; auto.
+  destruct c; cbn in *; try discriminate; exact I.
+Qed.
+
 Local Opaque start_session render_aerr finish_ares.
 Lemma init_auth_safe w n now r st : safe n (init_auth w n now r) st.
 Proof.
   unfold init_auth. sbreak; [exact I|]. apply safe_get_client. intros oc.
   destruct oc as [c|]; [|exact I].
   sbreak; [exact I|]. sbreak.
-  - sbreak; [exact I|]. cbn. unfold reply_a. destruct (find _ (st_asess st)) as [s|] eqn:EF; [|split; exact I].
-    split; [exact I|]. apply find_some in EF as [EF _].
+  - sbreak; [exact I|]. apply safe_lookup; [reflexivity| |exact I|exact I].
+    cbn. unfold reply_a. destruct (find _ (st_asess st)) as [s|] eqn:EF; [|exact I].
+    apply find_some in EF as [EF _].
     match goal with |- safe _ (match ?v with Some _ => _ | None => _ end) _ => destruct v end.
-    + cbn. split; [exact I|]. sgo; exact I.
-    + apply safe_bind; [|exact I]. apply start_session_safe. right. exists s. destruct (is_fapi _); auto.
+    + sgo; exact I.
+    + apply safe_bind_any; [|intros; exact I]. apply start_session_safe. right. exists s. destruct (is_fapi _); auto.
   - match goal with |- safe _ (match ?v with Some _ => _ | None => _ end) _ => destruct v end; [exact I|].
-    apply safe_bind; [|exact I]. apply start_session_safe. left. reflexivity.
+    apply safe_bind_any; [|intros; exact I]. apply start_session_safe. left. reflexivity.
 Qed.
 Local Transparent start_session render_aerr finish_ares.
 
 Lemma continue_auth_safe w n now r st : safe n (continue_auth w n now r) st.
 Proof.
-  unfold continue_auth. sbreak; [exact I|]. cbn. unfold reply_a. destruct (find _ (st_asess st)) as [s|] eqn:EF; [|split; exact I].
-  split; [exact I|]. apply find_some in EF as [EF _]. sbreak; [exact I|].
-  apply safe_bind; [apply authenticate_safe; right; exists s; auto|].
-  destruct (snd (run_seq _ st)) as [o|e]; [exact I|].
-  apply safe_get_client. intros oc. destruct oc; cbn; auto.
+  unfold continue_auth. sbreak; [exact I|]. apply safe_lookup; [reflexivity| |exact I|exact I].
+  cbn. unfold reply_a. destruct (find _ (st_asess st)) as [s|] eqn:EF; [|exact I].
+  apply find_some in EF as [EF _]. sbreak; [exact I|].
+  apply safe_bind_any; [apply authenticate_safe; right; exists s; auto|].
+  intros a st'. destruct a as [o|e]; [exact I|].
+  apply safe_get_client. intros oc. destruct oc; sgo; exact I.
 Qed.
 
 Lemma notify_failure_safe w n a st : safe n (notify_failure w a) st.
@@ -288,7 +370,7 @@ Theorem handler_safe w n now o st : fresh n st -> cinv n st -> safe n (handler w
 Proof.
   intros F C.
   assert (L : forall p : prog out, safe n p st -> safe n (bind p (fun x => Ret (Out x))) st).
-  { intros p H. apply safe_bind; [exact H|exact I]. }
+  { intros p H. apply safe_bind_any; [exact H|intros; exact I]. }
   destruct o; try destruct g; cbv beta iota zeta delta [handler];
     try match goal with
         | |- safe _ (bind (notify_success _ _ _ _ _) _) _ => idtac
@@ -306,8 +388,8 @@ Proof.
   - apply nosave_safe, token_info_nosave.
   - apply nosave_safe, token_info_req_nosave.
   - apply init_back_auth_safe.
-  - apply safe_bind; [apply notify_success_safe|exact I].
-  - apply safe_bind; [apply notify_failure_safe|exact I].
+  - apply safe_bind_any; [apply notify_success_safe|intros; exact I].
+  - apply safe_bind_any; [apply notify_failure_safe|intros; exact I].
 Qed.
 
 (* ---- the invariant of a whole history with crashes ---- *)
@@ -358,3 +440,53 @@ Qed.
 Theorem crash_all_histories w dyn ops :
   crash_inv (List.length ops) (s_store (run_crashy w (init_state dyn) 0 ops)).
 Proof. apply (run_crashy_inv w ops (init_state dyn) 0%nat), crash_inv_init. Qed.
+
+(* ---- the same over histories with faults AND crashes ---- *)
+Lemma run_fault_as_prefix {A} plan (p : prog A) : forall n st,
+  fst (fst (run_fault_prefix_log plan n (List.length (snd (run_fault_log plan n p st))) p st)) =
+  fst (fst (run_fault_log plan n p st)).
+Proof.
+  induction p as [a|c k IH|o p IH]; cbn; intros n st; auto.
+  destruct (exec_fault (plan n) c st) as [st' r] eqn:E. specialize (IH r (S n) st').
+  destruct (run_fault_log plan (S n) (k r) st') as [[st'' a] l]. cbn in *. rewrite ?E.
+  destruct (run_fault_prefix_log plan (S n) (List.length l) (k r) st') as [[s2 a2] l2]. cbn in *. exact IH.
+Qed.
+Theorem fault_prefix_crash_inv w n now o plan k st :
+  crash_inv n st -> crash_inv (S n) (fst (fst (run_fault_prefix_log plan 0 k (handler w n now o) st))).
+Proof.
+  intros [F C]. split.
+  - apply fault_prefix_fresh; auto. apply handler_disciplined.
+  - apply cinv_mono. apply fault_prefix_cinv; auto. apply handler_safe; auto.
+Qed.
+Theorem fault_crash_inv w n now o plan st :
+  crash_inv n st -> crash_inv (S n) (fst (fst (run_fault plan 0 (handler w n now o) st))).
+Proof.
+  intros H. rewrite run_fault_log_eq. cbn [fst]. rewrite <- run_fault_as_prefix. apply fault_prefix_crash_inv, H.
+Qed.
+Lemma crash_inv_tick n st : crash_inv n st -> crash_inv (S n) st.
+Proof.
+  intros [[FA FG] C]. split; [split|apply cinv_mono, C].
+  - constructor; [intros x f Hx; destruct (if_old _ _ _ _ _ _ _ FA x f Hx) as [Z|O]; [left; auto|right; eapply aold_mono; [|eauto]; lia]
+                 |apply (if_uniq _ _ _ _ _ _ _ FA)].
+  - constructor; [intros x f Hx; destruct (if_old _ _ _ _ _ _ _ FG x f Hx) as [Z|O]; [left; auto|right; eapply gold_mono; [|eauto]; lia]
+                 |apply (if_uniq _ _ _ _ _ _ _ FG)].
+Qed.
+Lemma faulty_step_inv w st n x : crash_inv n (s_store st) -> crash_inv (S n) (s_store (faulty_step w st n x)).
+Proof.
+  intros H. destruct x as [[o plan] [k|]].
+  - destruct o; try (exact (fault_prefix_crash_inv w n (s_now st) _ (plan_of plan) k (s_store st) H)).
+    apply crash_inv_tick, H.
+  - destruct o; try (exact (fault_crash_inv w n (s_now st) _ (plan_of plan) (s_store st) H)).
+    apply crash_inv_tick, H.
+Qed.
+Lemma run_faulty_inv w : forall ops st n, crash_inv n (s_store st) ->
+  crash_inv (n + List.length ops) (s_store (run_faulty w st n ops)).
+Proof.
+  induction ops as [|x ops IH]; cbn; intros st n H.
+  - rewrite Nat.add_0_r. exact H.
+  - replace (n + S (List.length ops))%nat with (S n + List.length ops)%nat by lia.
+    apply IH. apply faulty_step_inv, H.
+Qed.
+Theorem faulty_all_histories w dyn ops :
+  crash_inv (List.length ops) (s_store (run_faulty w (init_state dyn) 0 ops)).
+Proof. apply (run_faulty_inv w ops (init_state dyn) 0%nat), crash_inv_init. Qed.
